@@ -150,12 +150,22 @@ fn assemble<const NP: u8, const NM: u8>() {
     let merge = opts.merge_props;
     let mut v = visitor(opts);
     let mk = |k: &str, n: u32| PropOrSpread::Prop(Box::new(Prop::KeyValue(KeyValueProp { key: PropName::Str(Str { span: DUMMY_SP, value: Atom::from(k), raw: None }), value: opaque(n) })));
-    let props: Vec<PropOrSpread> = match NP { 0 => Vec::new(), 1 => vec![mk("pa", 1)], 2 => vec![mk("pa", 1), mk("pb", 2)], _ => vec![PropOrSpread::Spread(SpreadElement { dot3_token: sp(6), expr: opaque(5) })] };
+    let props: Vec<PropOrSpread> = match NP { 0 => Vec::new(), 1 => vec![mk("pa", 1)], 2 => vec![mk("pa", 1), mk("pb", 2)], 4 => vec![mk("pa", 1), mk("pa", 2)], 5 => vec![mk("class", 1), mk("class", 2)],
+        _ => vec![PropOrSpread::Spread(SpreadElement { dot3_token: sp(6), expr: opaque(5) })] };
     let margs: Vec<Expr> = match NM { 0 => Vec::new(), 1 => vec![*opaque(10)], _ => vec![*opaque(10), *opaque(11)] };
     let e = v.x_assemble(props, margs);
     match (NP, NM) {
         (0, 0) => assert!(matches!(&e, Expr::Lit(Lit::Null(..))), "C01: no props at all gives null"),
         (3, 0) => assert!(is_opaque(&e, 5), "C01: a lone spread is passed as the props object itself"),
+        (4, 0) => {
+            // repeated ordinary attribute: plain last-wins object semantics when mergeProps is off (both entries kept, in order)
+            if !merge { assert!(matches!(&e, Expr::Object(o) if o.props.len() == 2 && matches!(prop_value(&o.props[0]), Some(x) if is_opaque(x, 1)) && matches!(prop_value(&o.props[1]), Some(x) if is_opaque(x, 2))), "C01: with mergeProps off repeated attributes are kept as written (last wins at runtime)"); }
+            else { assert!(matches!(&e, Expr::Object(o) if o.props.len() == 1 && prop_key_str(&o.props[0]) == Some("pa")), "C01: with mergeProps on a repeated ordinary attribute is merged statically into one entry"); }
+        }
+        (5, 0) => {
+            if !merge { assert!(matches!(&e, Expr::Object(o) if o.props.len() == 2), "C01: with mergeProps off repeated class attributes are kept as written"); }
+            else { assert!(matches!(&e, Expr::Object(o) if o.props.len() == 1 && matches!(prop_value(&o.props[0]), Some(Expr::Array(a)) if a.elems.len() == 2 && matches!(&a.elems[0], Some(x) if is_opaque(&x.expr, 1)) && matches!(&a.elems[1], Some(x) if is_opaque(&x.expr, 2)))), "C01: with mergeProps on repeated class values are merged into one array in source order"); }
+        }
         (_, 0) => assert!(matches!(&e, Expr::Object(o) if o.props.len() == NP as usize && prop_key_str(&o.props[0]) == Some("pa") && (NP < 2 || prop_key_str(&o.props[1]) == Some("pb"))), "C01: props become one object literal in source order"),
         (0, 1) => assert!(is_opaque(&e, 10), "C01: a single merge argument is used as is"),
         _ => {
@@ -170,7 +180,7 @@ fn assemble<const NP: u8, const NM: u8>() {
 macro_rules! asm { ($($n:ident: $a:expr, $b:expr;)*) => { $(#[kani::proof] #[kani::unwind(4)]
     #[kani::stub(std::ptr::drop_in_place, no_drop)] #[kani::stub(core::ptr::drop_glue, no_glue)] #[kani::stub(alloc::fmt::format, fmt_marker)]
     fn $n() { assemble::<$a, $b>() })* } }
-asm! { asm_none: 0, 0; asm_one_prop: 1, 0; asm_two_props: 2, 0; asm_lone_spread: 3, 0; asm_one_merge: 0, 1; asm_two_merge: 0, 2; asm_merge_and_props: 1, 1; asm_two_merge_and_props: 2, 2; }
+asm! { asm_none: 0, 0; asm_one_prop: 1, 0; asm_two_props: 2, 0; asm_lone_spread: 3, 0; asm_one_merge: 0, 1; asm_two_merge: 0, 2; asm_merge_and_props: 1, 1; asm_two_merge_and_props: 2, 2; asm_repeated_plain: 4, 0; asm_repeated_class: 5, 0; }
 
 /// strict reading of C13 for the bare `on` attribute (without transformOn): a dynamic `on` prop is a prop like any other
 /// and must be covered.  Isolated: the pinned code (like the Babel plugin) never records `on`.
@@ -255,3 +265,21 @@ macro_rules! std_h { ($($n:ident: $k:expr;)*) => { $(#[kani::proof] #[kani::unwi
     #[kani::stub(crate::directive::parse_directive, pd_model)] #[kani::stub(alloc::fmt::format, fmt_marker)]
     fn $n() { step_dir::<$k>() })* } }
 std_h! { step_dir_normal: 0; step_dir_html: 1; step_dir_text: 2; step_vmodel_plain: 3; step_vmodel_computed: 5; step_vmodel_nullarg: 6; step_slots_some: 7; step_slots_none: 8; }
+
+/// spread arm, hint effect only (cheap variant of U-step-spread for the quick tier): EVERY spread forces has_dynamic_keys,
+/// whatever the options and whatever the spread argument is (C13: spread props always carry FULL_PROPS).
+fn step_spread_flag<const OBJ: bool>() {
+    let mut v = visitor(any_options());
+    let kv = PropOrSpread::Prop(Box::new(Prop::KeyValue(KeyValueProp { key: PropName::Ident(idn("k")), value: opaque(3) })));
+    let s = SpreadElement { dot3_token: sp(6), expr: if OBJ { Box::new(Expr::Object(ObjectLit { span: sp(3), props: vec![kv] })) } else { opaque(2) } };
+    let mut st = AttrState::initial();
+    st.has_dynamic_keys = false;
+    v.x_spread_arm(&mut st, &s);
+    assert!(st.has_dynamic_keys, "C13: a spread forces has_dynamic_keys (FULL_PROPS)");
+    std::mem::forget(st); std::mem::forget(s); std::mem::forget(v);
+}
+macro_rules! stf { ($($n:ident: $k:expr;)*) => { $(#[kani::proof] #[kani::unwind(4)]
+    #[kani::stub(std::ptr::drop_in_place, no_drop)] #[kani::stub(core::ptr::drop_glue, no_glue)] #[kani::stub(alloc::fmt::format, fmt_marker)]
+    #[kani::stub(crate::util::dedupe_props, dedupe_identity)]
+    fn $n() { step_spread_flag::<$k>() })* } }
+stf! { step_spread_flag_expr: false; step_spread_flag_object: true; }
